@@ -286,19 +286,28 @@ PROPS["C02"] = dict(
                "covered by C13's scripts. Soundness of the audit w.r.t. the tree-level predicate: see DESIGN.")
 PROPS["C06"] = dict(
     gens=[("hist", gen.gen_hist, 0.8), ("node-level", gen.gen_C06_nodes, 0.5), ("recycle-cached", gen.gen_recycle_cached, 0.6), ("counter-array", gen.gen_counter, 0.3), ("top-handles", gen.gen_C06_tail_handles, 0.4)], quick=40, thorough=500, rule=_AUDIT_RULE,
-    level_text="Proved (RefStoreP): for every history of node creations (unique-table lookup), reference "
-               "duplications and drops (recursive reclamation) the recorded counts are exact, an identifier is "
-               "live iff referenced, children are live and below their parent, no duplicates, and nothing is "
-               "live when no reference is held; the 8/16/32-bit counter array refines unbounded counts. Tie: "
-               "node-level histories driven through unpacked nodes / linkNode / unlinkNode with the recorded "
-               "count of every held node and the number of live nodes compared with the model machine after "
-               "every step; and reference-count clauses (incoming count = parent references + registered root edges; no "
-               "unreferenced live node beyond what the deletion policy allows; nothing live after everything is "
-               "released and caches cleared; held edges re-evaluate to the same table) evaluated by the "
-               "extracted Gallina audit on the implementation's dump after every few lines, incl. fan-in "
-               "histories crossing the 8/16-bit counter widths.",
-    level_note=_MODELLED + "Kernel theorems about the counter arrays are in progress (partial); use-after-free "
-               "in the C++ runtime is outside what a Gallina model can exhibit.")
+    level_text="Proved (RefStoreP, OptStoreP, OptStoreHeld): for every history of node creations (unique-table "
+               "lookup, which under the optimistic policy may revive an unreferenced node kept by a cache "
+               "entry), reference duplications and drops (recursive reclamation) and cache entries added and "
+               "removed, under either deletion policy: incoming counts and cache counts are exact; a node is in "
+               "the table iff referenced (pessimistic) / iff referenced or mentioned by a cache entry "
+               "(optimistic); a handle is free iff both counts are zero; children are in the table and below "
+               "their parent (nothing dangles: every diagram unfolds completely); a step never changes the "
+               "diagram below an identifier that is still referenced after it (held references keep their "
+               "function); no duplicates; the table is empty once no reference and no cache entry is left; the "
+               "8/16/32-bit counter array refines unbounded counts. Tie: node-level histories driven through "
+               "unpacked nodes / createReducedNode / linkNode / unlinkNode / cacheNode / uncacheNode with the "
+               "incoming count and handle of every held node, the cache count and status behind every cache "
+               "token and the number of active nodes compared with the model machine after every step (incl. "
+               "the handle-reuse discipline); the counter array driven directly; and reference-count clauses "
+               "(incoming count = parent references + registered root edges; no unreferenced live node beyond "
+               "what the deletion policy allows; nothing live after everything is released and caches cleared; "
+               "held edges re-evaluate to the same table) evaluated by the extracted Gallina audit on the "
+               "implementation's dump after every few lines, incl. fan-in histories crossing the 8/16-bit "
+               "counter widths.",
+    level_note=_MODELLED + "Nodes under construction (unpacked nodes hold references the machine does not see) and "
+               "mark-and-sweep mode are not modelled; use-after-free in the C++ runtime is outside what a "
+               "Gallina model can exhibit (the thorough tier runs every script on an ASan build).")
 PROPS["C07"] = dict(
     gens=[("hist", lambda r: gen.gen_hist(r, blank=True), 0.7), ("reuse", gen.gen_reuse, 0.6),
           ("heavy", gen.gen_heavy_ct, 0.2), ("recycle-cached", gen.gen_recycle_cached, 0.4),
@@ -348,10 +357,13 @@ PROPS["C15"] = dict(
     level_text="Proved: entry i of the index table is None when the set's value there is 0 and otherwise the "
                "number of preceding members; indices are below the member count; looking an index up returns the "
                "member whose table entry is that index, succeeds exactly for 0 <= i < n, and n is the number of "
-               "non-zero entries. Tie: CONVERT_TO_INDEX_SET tables, getElement(-2..n+1), empty and full sets, "
-               "non-uniform domains.",
-    level_note=_MODELLED + "EV+ structure of the index set (stored cardinalities) is checked by the audit "
-               "clauses only.")
+               "non-zero entries; for product sets of ANY size (P_C15_product.v) the members in lexicographic "
+               "order are the mixed-radix numerals, lookup = unrankN, count = prod_countN, rankN inverts "
+               "unrankN -- all with binary numbers. Tie: CONVERT_TO_INDEX_SET tables, getElement(-2..n+1), empty "
+               "and full sets, non-uniform domains; product sets of up to 2^40 members: stored cardinality of "
+               "the root, getElement around 2^31, 2^32, 2^33 and the ends, value at the member found.",
+    level_note=_MODELLED + "Stored cardinalities of inner nodes are not compared; huge sets other than "
+               "products are out of reach of the tabulating model.")
 
 PROPS["C12"] = dict(
     gens=[("hist", lambda r: gen.gen_hist(r, fanin=False), 0.6), ("reuse", gen.gen_reuse, 0.4),
